@@ -7,7 +7,9 @@ HERE = os.path.dirname(os.path.dirname(os.path.abspath(__file__)))
 props = [json.loads(l) for l in open(os.path.join(HERE, "properties.jsonl"))]
 
 CORE_NOTE = ("Assumes: bounded families (small-scope); the harness observes through public API subclasses and hooks; "
-             "TLC + CommunityModules Json + the Python harness are trusted; Sched.tla does not model raising pause()/resume().")
+             "TLC + CommunityModules Json + the Python harness are trusted; Sched.tla does not model raising pause()/resume(). "
+             "Every family is also run under four debug-option sets, with task functions called with arguments through bound and unbound "
+             "paths, about half of the exception objects falsy and received structures mutated after use (aliasing).")
 CORE_TECH = "TLA+ spec (Sched.tla) model-checked by TLC over program families x all tie-break schedules; every behaviour replayed into the real code; real traces validated by TLC against the monitor spec (TraceObs.tla) and against Sched.tla (TraceSched)"
 
 CHECKS = {
